@@ -222,9 +222,12 @@ def run(check, an: Analysis):
     for path in recv_paths:
         for index, event in enumerate(path.events):
             if event.kind == 'susp' and event['how'] == 'await' and event.depth == 0:
-                entered = any(e.kind == 'susp' and e['how'] == 'aenter'
-                              and e['exit'] == 'normal' and is_call_to(e, '__aenter__', LOCK)
-                              for e in path.events[:index])
+                # inside the mutex *now*: the last thing done with it is a completed entry
+                mutex = [e for e in path.events[:index] if e.kind == 'susp' and (
+                    (e['how'] == 'aenter' and is_call_to(e, '__aenter__', LOCK))
+                    or (e['how'] == 'aexit' and is_call_to(e, '__aexit__', LOCK)))]
+                entered = bool(mutex) and mutex[-1]['how'] == 'aenter' and \
+                    mutex[-1]['exit'] == 'normal'
                 if not entered:
                     check.instance('F', 'recv:wait-under-mutex@%d' % event.line, False,
                                    event.where, 'a receiver waits outside the read mutex',
@@ -257,6 +260,25 @@ def run(check, an: Analysis):
                            'iteration ends only through the StreamClosed handler',
                            path=rules.path_lines(path))
     check.instance('I', 'yields', n_yield > 0, where_fn(aiter.fn), 'iteration yields items')
+    # every queue has state of its own, made by its constructor (a default in the class
+    # body would be one object shared by all of them), and its put()/close() are over after
+    # one postponement: they never wait for consumers
+    for field, fresh in (('_buffer', True), ('_notification', True), ('_read_mutex', True), ('_closed', False)):
+        made = rules.constructor_field(an, QUEUE, field)
+        ok = made is not None and (not fresh or isinstance(made, (ast.Call, ast.Dict, ast.List)))
+        check.instance('D', 'Queue.__init__:%s' % field, ok,
+                       where_fn(an.method(QUEUE, '__init__')),
+                       'set per instance by the constructor: %s' % (
+                           ast.unparse(made) if made is not None else None))
+    for name in ('put', 'close'):
+        op = an.callee(QUEUE, name)
+        counts = set()
+        for path in an.paths(op):
+            if path.normal:
+                counts.add(sum(1 for e in path.events if is_suspension(e) and e.depth == 0))
+        check.instance('D', 'Queue.%s:one-postponement' % name, counts == {1},
+                       where_fn(op.fn), 'every completed %s() suspended exactly once '
+                       '(suspensions per normal path: %s)' % (name, sorted(counts)))
     # the kernel rules every suspending operation rests on (shared; see _scope)
     from . import _scope as _kernel
     _kernel.check_kernel_core(check, an)
